@@ -48,6 +48,9 @@ def audit_pass(prog, obs):
   if died:
     v.append(('C01/false-pass/executor-exception/%s@%s' % (died[0][1], died[0][3]),
               'PASS although the executor thread died with %s: %s' % (died[0][1], died[0][2])))
+  gave_up = [e for e in obs.events if e[0] == 'user-code-exit']
+  if gave_up:
+    v.append(('C01/false-pass/user-code-called-sys-exit', 'PASS although %r raised SystemExit on the executor thread' % (gave_up[0][1:],)))
   o = prog['opts']
   for p in rec['phases']:
     if p['outcome'] in ('FAIL', 'ERROR'):
